@@ -1178,6 +1178,14 @@ theorem case_map_idempotent (lower : Bool) (s : Bytes) :
     Case.goMap (Case.toRune lower) (Case.goMap (Case.toRune lower) s) = Case.goMap (Case.toRune lower) s :=
   Case.goMap_case_idem lower s
 
+/-- **`{upper}` / `{lower}` of a non-ASCII value is well-formed UTF-8**, whatever the input bytes (each ill-formed
+    byte comes out as U+FFFD): the `strings.Map` path of both helpers only writes what `AppendRune` writes. -/
+theorem upper_lower_nonascii_wellformed (s : Bytes) (h : s.all (fun c => c < 128) = false) :
+    Rare.C20.ValidUtf8 (Case.goToUpper s) ∧ Rare.C20.ValidUtf8 (Case.goToLower s) := by
+  have eu : Case.goToUpper s = Case.goMap Case.toUpperR s := by unfold Case.goToUpper; simp only [h]; rfl
+  have el : Case.goToLower s = Case.goMap Case.toLowerR s := by unfold Case.goToLower; simp only [h]; rfl
+  rw [eu, el]; exact ⟨Case.goMap_valid _ _, Case.goMap_valid _ _⟩
+
 /-- non-vacuity: a value that leaves ASCII-free text for ASCII (`ſıx`), and an ill-formed one (lone 0xFF, 0xC3). -/
 example : Case.goToUpper [0xC5, 0xBF, 0xC4, 0xB1, 0x78] = [0x53, 0x49, 0x58] ∧
     Case.goToUpper [0x53, 0x49, 0x58] = [0x53, 0x49, 0x58] ∧
